@@ -36,8 +36,14 @@ type c10Params struct {
 	Seed    uint64  // leaf content seed
 	Indexes []uint64
 	Faults  []c10Fault
-	Paths   int // number of mutated tile paths to check
+	// More holds further reads issued on the SAME TileHashReader after the first.
+	More    []c10Read
 	PathSrc []uint64
+}
+
+type c10Read struct {
+	Indexes []uint64
+	Faults  []c10Fault
 }
 
 func c10Leaf(seed uint64, i int64) []byte {
@@ -50,6 +56,8 @@ type c10Reader struct {
 	tree      *ref.Tree
 	published map[string]bool
 	N         int64
+	faults    []c10Fault
+	idx       []int64
 	delivered int // number of tiles served with content different from the true tile
 	countBad  bool
 	saved     int
@@ -103,7 +111,7 @@ func (r *c10Reader) ReadTiles(tiles []tlog.Tile) (out [][]byte, err error) {
 	if len(tiles) > stage1 {
 		res.Probes["read-with-child-tiles"]++
 	}
-	for _, f := range r.p.Faults {
+	for _, f := range r.faults {
 		if len(tiles) == 0 {
 			break
 		}
@@ -206,7 +214,7 @@ func (r *c10Reader) SaveTiles(tiles []tlog.Tile, data [][]byte) {
 		if i >= len(data) || !bytes.Equal(data[i], trueTile(r.tree, t)) {
 			r.res.Fail("C10", "saved-tile-true", "tile handed to SaveTiles differs from the true tile",
 				"tree size %d height %d indexes %v: SaveTiles got tile %s whose data is not the true tile (position %d of %d in the read, %d tree-hash tiles, %d tree-hash subtrees)",
-				r.N, r.p.H, r.p.Indexes, t.Path(), i, len(tiles), c10Stage1Tiles(r.p.H, r.N), bits.OnesCount64(uint64(r.N)))
+				r.N, r.p.H, r.idx, t.Path(), i, len(tiles), c10Stage1Tiles(r.p.H, r.N), bits.OnesCount64(uint64(r.N)))
 		}
 	}
 }
@@ -246,59 +254,72 @@ func runC10(p *c10Params) *core.Result {
 		old = s
 	}
 	cnt := ref.StoredCount(N)
-	idx := make([]int64, len(p.Indexes))
-	for i, x := range p.Indexes {
-		idx[i] = int64(x % uint64(cnt))
-	}
 	rd := &c10Reader{p: p, res: res, tree: tree, published: pub, N: N}
 	root := tree.MTH(N)
-	res.Logf("tree N=%d H=%d steps=%v indexes=%v faults=%d", N, p.H, p.Steps, idx, len(p.Faults))
-
-	var hashes []tlog.Hash
+	reader := tlog.TileHashReader(tlog.Tree{N: N, Hash: tlog.Hash(root)}, rd)
+	reads := append([]c10Read{{Indexes: p.Indexes, Faults: p.Faults}}, p.More...)
+	anyFault := false
+	var idx []int64
 	var err error
-	func() {
-		defer func() {
-			if e := recover(); e != nil {
-				res.Fail("C10", "no-panic", "ReadHashes panicked", "tree %d height %d indexes %v: panic: %v", N, p.H, idx, e)
-				err = fmt.Errorf("panic")
-			}
+	for ri, rdp := range reads {
+		idx = make([]int64, len(rdp.Indexes))
+		for i, x := range rdp.Indexes {
+			idx[i] = int64(x % uint64(cnt))
+		}
+		rd.faults, rd.idx, rd.delivered, rd.countBad = rdp.Faults, idx, 0, false
+		res.Logf("read %d: tree N=%d H=%d steps=%v indexes=%v faults=%d", ri, N, p.H, p.Steps, idx, len(rdp.Faults))
+		var hashes []tlog.Hash
+		err = nil
+		func() {
+			defer func() {
+				if e := recover(); e != nil {
+					res.Fail("C10", "no-panic", "ReadHashes panicked", "tree %d height %d indexes %v: panic: %v", N, p.H, idx, e)
+					err = fmt.Errorf("panic")
+				}
+			}()
+			hashes, err = reader.ReadHashes(idx)
 		}()
-		hashes, err = tlog.TileHashReader(tlog.Tree{N: N, Hash: tlog.Hash(root)}, rd).ReadHashes(idx)
-	}()
-	res.Steps = rd.reads + rd.saved
-	faulted := rd.delivered > 0 || rd.countBad
-	if err == nil {
-		if len(hashes) != len(idx) {
-			res.Fail("C10", "result-count", "wrong number of hashes", "asked %d got %d", len(idx), len(hashes))
-		}
-		for i := range hashes {
-			if i < len(idx) && ref.Hash(hashes[i]) != tree.StoredHash(idx[i]) {
-				l, o := ref.StoredCoord(idx[i])
-				res.Fail("C10", "returned-hash-true", "read succeeded with a hash that is not the true stored hash",
-					"tree size %d height %d: ReadHashes(%v) returned a wrong hash for index %d (level %d offset %d); faults fired: %v", N, p.H, idx, idx[i], l, o, res.Faults)
+		faulted := rd.delivered > 0 || rd.countBad
+		anyFault = anyFault || faulted
+		if err == nil {
+			if len(hashes) != len(idx) {
+				res.Fail("C10", "result-count", "wrong number of hashes", "asked %d got %d", len(idx), len(hashes))
+			}
+			for i := range hashes {
+				if i < len(idx) && ref.Hash(hashes[i]) != tree.StoredHash(idx[i]) {
+					l, o := ref.StoredCoord(idx[i])
+					res.Fail("C10", "returned-hash-true", "read succeeded with a hash that is not the true stored hash",
+						"tree size %d height %d: read #%d ReadHashes(%v) returned a wrong hash for index %d (level %d offset %d); faults fired: %v", N, p.H, ri, idx, idx[i], l, o, res.Faults)
+				}
+			}
+			if rd.countBad {
+				res.Fail("C10", "seam-contract", "wrong result count from ReadTiles accepted", "ReadTiles returned a result slice of the wrong length and the read succeeded")
+			}
+			if faulted {
+				res.Probes["faulted-read-succeeded-with-true-hashes"]++
+			}
+		} else {
+			res.Logf("read failed: %v", err)
+			if !faulted && res.Violation == nil {
+				res.Fail("C10", "honest-succeeds", "honest tiles rejected", "tree size %d height %d: read #%d indexes %v: all tiles served truthfully but ReadHashes failed: %v", N, p.H, ri, idx, err)
+			}
+			if faulted {
+				res.Probes["faulted-read-rejected"]++
+			}
+			if strings.Contains(err.Error(), "bad math") {
+				res.Fail("C10", "internal-error", "internal error reported", "tree %d height %d indexes %v: %v", N, p.H, idx, err)
 			}
 		}
-		if rd.countBad {
-			res.Fail("C10", "seam-contract", "wrong result count from ReadTiles accepted", "ReadTiles returned a result slice of the wrong length and the read succeeded")
-		}
-		if faulted {
-			res.Probes["faulted-read-succeeded-with-true-hashes"]++
-		}
-	} else {
-		res.Logf("read failed: %v", err)
-		if !faulted && res.Violation == nil {
-			res.Fail("C10", "honest-succeeds", "honest tiles rejected", "tree size %d height %d indexes %v: all tiles served truthfully but ReadHashes failed: %v", N, p.H, idx, err)
-		}
-		if faulted {
-			res.Probes["faulted-read-rejected"]++
-		}
-		if strings.Contains(err.Error(), "bad math") {
-			res.Fail("C10", "internal-error", "internal error reported", "tree %d height %d indexes %v: %v", N, p.H, idx, err)
+		if ri > 0 {
+			res.Probes["later-read-on-same-reader"]++
 		}
 	}
+	res.Steps = rd.reads + rd.saved
+	faulted := anyFault
 
 	// tile path bijection on mutated paths
 	for i := 0; i+1 < len(p.PathSrc); i += 2 {
+		c10PathLaws(res, p.PathSrc[i], p.PathSrc[i+1])
 		pth := c10MutatePath(p.H, p.PathSrc[i], p.PathSrc[i+1])
 		if t, err := tlog.ParseTilePath(pth); err == nil {
 			if t.Path() != pth {
@@ -323,6 +344,52 @@ func runC10(p *c10Params) *core.Result {
 	res.Trivial = N < 2 || !faulted && len(idx) == 0
 	res.Sample = map[string]interface{}{"height": p.H, "tree_size": N, "growth_steps": p.Steps, "indexes": idx, "faults_fired": res.Faults, "read_ok": err == nil}
 	return res
+}
+
+// c10PathLaws checks, for a generated valid tile, that its path parses back
+// to the same tile and that neighbouring coordinates get different paths.
+func c10PathLaws(res *core.Result, a, b uint64) {
+	t := c10GenTile(a, b)
+	p := t.Path()
+	back, err := tlog.ParseTilePath(p)
+	if err != nil || back != t {
+		res.Fail("C10", "path-roundtrip", "ParseTilePath(Path(t)) != t", "tile %+v has path %q which parses to %+v, %v", t, p, back, err)
+	}
+	others := []tlog.Tile{t, t, t, t, t, t}
+	others[0].N = t.N / 1000
+	others[1].N = t.N % 1000
+	others[2].N = t.N * 1000
+	others[3].N = t.N + 1000
+	others[4].L = t.L + 1
+	others[5].W = t.W%(1<<uint(t.H)) + 1
+	for _, o := range others {
+		if o != t && o.Path() == p {
+			res.Fail("C10", "path-injective", "two different tiles share a path", "tiles %+v and %+v both have path %q", t, o, p)
+		}
+	}
+}
+
+// c10GenTile derives a valid tile, biased to digit-group boundaries of N.
+func c10GenTile(a, b uint64) tlog.Tile {
+	t := tlog.Tile{H: 1 + int(a%10), L: int(a >> 8 % 6)}
+	if a>>40%4 == 0 {
+		t.L = -1
+	}
+	t.W = 1 + int(a>>44%uint64(1<<uint(t.H)))
+	switch b % 5 {
+	case 0:
+		t.N = int64(b >> 8 % 1000)
+	case 1:
+		t.N = int64(b >> 8 % 3000000)
+	case 2: // exact powers of 1000 and neighbours
+		pow := []int64{1000, 1000000, 1000000000, 1000000000000}[b>>8%4]
+		t.N = pow*int64(1+b>>12%3) + int64(b>>16%3) - 1
+	case 3:
+		t.N = int64(b >> 8 % (1 << 40))
+	default:
+		t.N = int64(b>>8%1000) * 1000
+	}
+	return t
 }
 
 // c10MutatePath builds a tile path that is usually almost valid.
@@ -405,6 +472,21 @@ func c10Explore(src *choice.Src) *core.Result {
 	for i := 0; i < 4; i++ {
 		p.PathSrc = append(p.PathSrc, src.Raw())
 	}
+	for i, n := 0, src.Weighted(5, 3, 2); i < n; i++ {
+		var r c10Read
+		// reuse an earlier index half of the time so that the same tiles are read again
+		for j, m := 0, src.Range(1, 4); j < m; j++ {
+			if src.Bool(1, 2) {
+				r.Indexes = append(r.Indexes, p.Indexes[src.Intn(len(p.Indexes))])
+			} else {
+				r.Indexes = append(r.Indexes, src.Raw())
+			}
+		}
+		for j, m := 0, src.Weighted(2, 4, 1); j < m; j++ {
+			r.Faults = append(r.Faults, c10Fault{Ord: src.Raw(), Kind: src.Pick(len(c10FaultNames)), A: src.Raw(), B: src.Raw()})
+		}
+		p.More = append(p.More, r)
+	}
 	return runC10(p)
 }
 
@@ -422,8 +504,15 @@ func c10SweepRun(src *choice.Src) *core.Result {
 	p.Indexes = []uint64{src.Raw()}
 	kind := src.Intn(len(c10FaultNames) + 1)
 	ord, a, b := src.Raw(), src.Raw(), src.Raw()
+	var faults []c10Fault
 	if kind > 0 {
-		p.Faults = []c10Fault{{Ord: ord, Kind: kind - 1, A: a, B: b}}
+		faults = []c10Fault{{Ord: ord, Kind: kind - 1, A: a, B: b}}
+	}
+	if src.Bool(1, 2) {
+		// an honest read of the same index first, then the faulted read on the same reader
+		p.More = []c10Read{{Indexes: p.Indexes, Faults: faults}}
+	} else {
+		p.Faults = faults
 	}
 	return runC10(p)
 }
@@ -460,8 +549,10 @@ func c10Enumerate(quick bool, seed uint64, shard, nshards int, emit func([]uint6
 						}
 						// two positions per kind: first and a later one
 						for _, a := range []uint64{0, 37 + seed%200} {
-							if !emit([]uint64{uint64(h - 1), uint64(n - 1), 0, uint64(idx), uint64(kind), uint64(ord), a, a/3 + 1}) {
-								return false
+							for pre := uint64(0); pre < 2; pre++ {
+								if !emit([]uint64{uint64(h - 1), uint64(n - 1), 0, uint64(idx), uint64(kind), uint64(ord), a, a/3 + 1, pre}) {
+									return false
+								}
 							}
 						}
 					}
@@ -481,8 +572,8 @@ func init() {
 		},
 		Explore: []string{"explore"},
 		Sweeps: []core.Sweep{{Name: "single-fault-placement", Entry: "sweep", Enumerate: c10Enumerate,
-			Space: "heights 1..4 (quick 1..3) x tree sizes 1..64 (quick 1..26) x every single stored-hash index x {honest, each of the first 6 fetched tiles x each corruption kind x 2 positions}"}},
-		Rule: "explore: seeded (height 1..10, 1-4 growth steps up to 300/2000 records, 1-6 stored-hash positions, 0-3 tile faults of 10 kinds); sweep: placed single faults. Distinct = distinct (height, size, index set, fault kinds fired, outcome); non-trivial = tree size >= 2 and (a fault was delivered or at least one index was read).",
+			Space: "heights 1..4 (quick 1..3) x tree sizes 1..64 (quick 1..26) x every single stored-hash index x {honest, each of the first 6 fetched tiles x each corruption kind x 2 positions x {fresh reader, after an honest read on the same reader}}"}},
+		Rule: "explore: seeded (height 1..10, 1-4 growth steps up to 300/2000 records, 1-6 stored-hash positions, 0-3 tile faults of 10 kinds, 0-2 further reads on the same reader); sweep: placed single faults. Distinct = distinct (height, size, index set, fault kinds fired, outcome); non-trivial = tree size >= 2 and (a fault was delivered or at least one index was read).",
 		Real: []string{"tlog.TileHashReader.ReadHashes", "tlog.HashFromTile", "tlog.TileForIndex", "tlog.NewTiles", "tlog.Tile.Path", "tlog.ParseTilePath"},
 		Stub: []string{"TileReader (tile server + network + SaveTiles sink)", "tile publisher store", "reference RFC 6962 tree (oracle)"},
 		Assumptions: []string{"SHA-256 collision resistance (a corrupted tile never hashes to the true value)", "reference Merkle implementation in sim/ref is correct (cross-checked against a naive recursion in selftest)"},
